@@ -42,6 +42,11 @@ var props = map[string]propCfg{
 		{Name: "plain", Shards: 16, TimeoutS: 900, TZ: []string{"UTC"}},
 		{Name: "asan", Tier: "thorough", Asan: true, Shards: 16, TimeoutS: 1800, TZ: []string{"UTC"}},
 	}, RaceFiles: ioRace},
+	"C06": {Pkg: "checks/c06", Level: "exploration", Passes: []pass{
+		{Name: "plain", Shards: 16, TimeoutS: 900, TZ: []string{"UTC", "Asia/Shanghai"}},
+		{Name: "race", Race: true, Shards: 16, TimeoutS: 1200, TZ: []string{"UTC"}},
+		{Name: "asan", Tier: "thorough", Asan: true, Shards: 16, TimeoutS: 1800, TZ: []string{"UTC"}},
+	}, RaceFiles: ioRace},
 	"C03": {Pkg: "checks/c03", Level: "exploration", Passes: []pass{
 		{Name: "plain", Shards: 16, TimeoutS: 600, TZ: []string{"UTC", "Asia/Shanghai"}},
 	}, RaceFiles: ioRace},
